@@ -40,6 +40,7 @@ type RunResult struct {
 	Kinds    []string
 	HarnessE string // harness trouble (never a violation)
 	Leftover bool   // goroutines were still blocked when the bubble ended
+	Abandoned bool  // the bubble could not end (goroutines blocked on a lock); it was left behind
 }
 
 var theT *testing.T // the *testing.T of TestWorker (synctest needs one)
@@ -95,7 +96,10 @@ func runOne(p *Property, sc *Scenario, d RunDesc, thorough bool) (res RunResult)
 	}
 	if sc.Bubble {
 		e.inBub = true
-		func() {
+		bodyDone := make(chan struct{}) // deliberately created outside the bubble
+		finished := make(chan struct{})
+		go func() {
+			defer close(finished)
 			defer func() {
 				if r := recover(); r != nil {
 					// end-of-bubble deadlock panic: goroutines left behind
@@ -108,6 +112,7 @@ func runOne(p *Property, sc *Scenario, d RunDesc, thorough bool) (res RunResult)
 				}
 			}()
 			synctest.Test(theT, func(t *testing.T) {
+				defer close(bodyDone)
 				e.wake = make(chan struct{}, 1)
 				e.baseG = runtime.NumGoroutine()
 				start := time.Now()
@@ -115,6 +120,25 @@ func runOne(p *Property, sc *Scenario, d RunDesc, thorough bool) (res RunResult)
 				e.simSpan = time.Since(start)
 			})
 		}()
+		<-bodyDone
+		// The bubble ends when its goroutines have exited or are durably blocked.
+		// Goroutines stuck on a lock nobody will release (only ever the case after
+		// a violation) would keep it open forever: abandon it after a short wait.
+		deadline := time.Now().Add(40 * time.Millisecond)
+	waitEnd:
+		for {
+			select {
+			case <-finished:
+				break waitEnd
+			default:
+			}
+			if time.Now().After(deadline) {
+				res.Abandoned = true
+				res.Leftover = true
+				break
+			}
+			time.Sleep(20 * time.Microsecond)
+		}
 	} else {
 		body()
 	}
@@ -151,6 +175,7 @@ type gstate struct {
 	id      string
 	state   string
 	bubble  bool
+	bubbleID string
 	durable bool
 	body    string
 }
@@ -186,6 +211,13 @@ func dumpGoroutines() []gstate {
 		parts := strings.Split(inner, ", ")
 		g.state = parts[0]
 		g.bubble = strings.Contains(inner, "synctest bubble")
+		if i := strings.Index(inner, "synctest bubble "); i >= 0 {
+			id := inner[i+len("synctest bubble "):]
+			if j := strings.IndexAny(id, ",]"); j >= 0 {
+				id = id[:j]
+			}
+			g.bubbleID = id
+		}
 		g.durable = strings.Contains(inner, "(durable)")
 		out = append(out, g)
 	}
@@ -228,7 +260,7 @@ func (e *Env) quiesceByDump() bool {
 		gs := dumpGoroutines()
 		busy, soft := false, false
 		for i, g := range gs {
-			if i == 0 || !g.bubble { // gs[0] is the caller
+			if i == 0 || !g.bubble || g.bubbleID != gs[0].bubbleID { // gs[0] is the caller
 				continue
 			}
 			switch {
@@ -286,8 +318,9 @@ func (e *Env) Poke() {
 // a go-diameter frame on their stack.
 func (e *Env) LibGoroutines() []string {
 	var out []string
-	for i, g := range dumpGoroutines() {
-		if i == 0 || !g.bubble {
+	gs := dumpGoroutines()
+	for i, g := range gs {
+		if i == 0 || !g.bubble || g.bubbleID != gs[0].bubbleID {
 			continue
 		}
 		if strings.Contains(g.body, "github.com/fiorix/go-diameter") {
